@@ -219,15 +219,25 @@ theorem allDone_frame (w : World) {n : NodeId} : ∀ (ps : List NodeId) (ns : NS
     · rw [if_pos hd, allDone_frame w ps _ hps]; exact upd_get_ne w ns hp
     · rw [if_neg hd]; exact upd_get_ne w ns hp
 
+theorem allDoneAll_frame (w : World) {n : NodeId} : ∀ (ps : List NodeId) (ns : NSMap), n ∉ ps →
+    (allDoneAll w ns ps).2.get n = ns.get n
+  | [], _, _ => rfl
+  | p :: ps, ns, h => by
+    have hp : n ≠ p := fun e => h (by simp [e])
+    have hps : n ∉ ps := fun e => h (by simp [e])
+    rw [allDoneAll_cons]
+    show (allDoneAll w (nodeDone w ns p).2 ps).2.get n = ns.get n
+    rw [allDoneAll_frame w ps _ hps]; exact upd_get_ne w ns hp
+
 theorem nodeRunnable_frame (wf : Wf) (w : World) (ns : NSMap) {n m : NodeId} (hm : m ≠ n)
     (hp : m ∉ wf.preds n) : (nodeRunnable wf w ns n).1.get m = ns.get m := by
   unfold nodeRunnable
   simp only
   split
-  · rw [upd_get_ne _ _ hm, setN_get_ne _ _ hm]
+  · rw [upd_get_ne _ _ hm, setN_get_ne _ _ hm]; exact allDoneAll_frame w _ ns hp
   · split
-    · rw [setN_get_ne _ _ hm]; exact allDone_frame w _ ns hp
-    · exact allDone_frame w _ ns hp
+    · rw [setN_get_ne _ _ hm]; exact allDoneAll_frame w _ ns hp
+    · exact allDoneAll_frame w _ ns hp
 
 theorem scan_frame (wf : Wf) (w : World) {n : NodeId} : ∀ (rest : List NodeId) (ns : NSMap) (nst : List NodeId)
     (tasks : List Job), n ∉ rest → (∀ m, m ∈ rest → n ∉ wf.preds m) →
